@@ -475,6 +475,11 @@ def main_desc(ctx, prop):
     if exp is not None and ctx.rng.random() < (0.7 if prop in ("C08", "C14") else 0.4) and not exp.get("load_session"):
         argv = argv + [ctx.rng.choice(["--load", "-l"])]
         exp["load_session"] = True
+    # session names with a dot: the save file is <session>.sav whatever the name looks like
+    if exp is not None and ctx.rng.random() < (0.25 if prop == "C08" else 0.1):
+        name = ctx.rng.choice(["v1.2", "a.b", "run.sav", "x.y.z"])
+        argv = argv + [ctx.rng.choice(["--session", "-s"]), name]
+        exp["session_name"] = name
     w1, w2 = ctx.rng.choice(BOOL_WORDS[:4] + BOOL_WORDS[:2]), ctx.rng.choice(BOOL_WORDS[:4] + BOOL_WORDS[:2])
     return {"cli": "main", "argv": argv, "expect": exp,
             "save_file": ctx.rng.choice(["valid"] * 6 + ["missing", "garbage", "drop", "badbool"]),
